@@ -367,7 +367,9 @@ func allTargets() []*target {
 				}
 			}})
 		add(&target{name: "type3.InnerTokenRequest.Unmarshal", fields: []int{0, 257, 258}, seeds: [][]byte{x.inner},
-			layout: func(b []byte) []gen.Part { return []gen.Part{{Kind: 0, Data: b[:1]}, {Kind: 0, Data: b[1:257]}, {Kind: 2, Data: b[259:]}} },
+			layout: func(b []byte) []gen.Part {
+				return []gen.Part{{Kind: 0, Data: b[:1]}, {Kind: 0, Data: b[1:257]}, {Kind: 2, Data: b[259:]}}
+			},
 			run: func(in []byte) {
 				r := new(type3.InnerTokenRequest)
 				if r.Unmarshal(in) {
@@ -408,12 +410,12 @@ func allTargets() []*target {
 			}})
 		add(&target{name: "type1.FinalizeToken", heavy: true, seeds: [][]byte{x.resp1},
 			layout: func(b []byte) []gen.Part { return fixedParts(b, 49, 97) },
-			run: func(in []byte) { _, _ = x.st1.FinalizeToken(in) }})
+			run:    func(in []byte) { _, _ = x.st1.FinalizeToken(in) }})
 		add(&target{name: "type2.FinalizeToken", heavy: true, seeds: [][]byte{x.resp2},
 			run: func(in []byte) { _, _ = x.st2.FinalizeToken(in) }})
 		add(&target{name: "type3.FinalizeToken", heavy: true, seeds: [][]byte{x.resp3},
 			layout: func(b []byte) []gen.Part { return fixedParts(b, 16) },
-			run: func(in []byte) { _, _ = x.st3.FinalizeToken(in) }})
+			run:    func(in []byte) { _, _ = x.st3.FinalizeToken(in) }})
 		add(&target{name: "type5.FinalizeTokens", heavy: true, fields: []int{0, 1, 2, 3}, seeds: [][]byte{x.resp5}, layout: layoutVarintThenRest(0),
 			run: func(in []byte) { _, _ = x.st5.FinalizeTokens(in) }})
 		add(&target{name: "type3.RateLimitedIssuer.Evaluate", heavy: true, fields: []int{0, 1, 83, 84}, seeds: [][]byte{x.req3}, layout: layoutType3Request,
